@@ -6,7 +6,11 @@
 (* F_DUPFD_CLOEXEC >= 10, open the operand, install it with dup2 / close,  *)
 (* record the saved copy), then per command kind run / undo in reverse     *)
 (* order / preserve (`exec`), and the error continuations of builtin.rs,   *)
-(* function.rs, external.rs, absent.rs and compound_command.rs.  For the   *)
+(* function.rs, external.rs, absent.rs and compound_command.rs; `exec`     *)
+(* with operands whose utility cannot be executed (the redirections are    *)
+(* kept all the same; the shell then ends unless it is interactive), and   *)
+(* the interactive shell, which survives the errors of special built-ins.  *)
+(* For the                                                                 *)
 (* dot built-in (`. file`, `command . file`) the shell's own descriptor    *)
 (* traffic is modelled too: open the script low, move it to >= 10 with     *)
 (* FD_CLOEXEC (yash-env/src/io.rs move_fd_internal: the low descriptor is  *)
@@ -111,13 +115,18 @@ AllKinds  == {"special", "builtin", "function", "group", "subshell", "notfound",
               "dot", "cmddot"}
 DotKinds  == {"dot", "cmddot"}
 CoreKinds == {"builtin", "special", "exec", "empty"}
+\* (ExecOpKinds - `exec` with operands, one kind per way the utility cannot be
+\* executed - is defined in RedirAbs)
 
 \* fault injection: the n-th system call of kind `call` that the shell makes
 \* for the command fails (with `errno`: any error that says nothing about the
 \* state of the descriptors)
 NoFault == [call |-> "none", n |-> 0, errno |-> "EIO"]
 Sc(init, nc, lim, kind, bst, list) ==
-  [init |-> init, nc |-> nc, lim |-> lim, kind |-> kind, bst |-> bst, list |-> list, fault |-> NoFault]
+  [init |-> init, nc |-> nc, lim |-> lim, kind |-> kind, bst |-> bst, list |-> list, fault |-> NoFault,
+   inter |-> FALSE]
+\* the same scenarios in an interactive shell
+Inter(F) == {[s EXCEPT !.inter = TRUE] : s \in F}
 
 Seq1(A)       == {<<a>> : a \in A}
 Seq2(A, B)    == {<<a, b>> : a \in A, b \in B}
@@ -154,6 +163,9 @@ Fam(c) ==
                                    Faults)
     [] c = "negdot" -> Family({"std", "int"}, {FALSE}, {9, 10, 11, 12}, DotKinds, FALSE,
                               Seq1(Small) \cup {<<>>})
+    \* `exec` with operands in an interactive shell (Bug = "dropop")
+    [] c = "negop" -> Inter(Family({"std", "x35"}, {FALSE}, {NoLimit}, {"execnf", "execne"}, FALSE,
+                                   Seq1(Small) \cup Seq2(Small, Small)))
     \* quick -----------------------------------------------------------------
     \* every single redirection x every command kind, no limit
     [] c = "q1a" -> Family({"std", "x35"}, BOOLEAN, {NoLimit}, AllKinds, TRUE, Seq1(Full1) \cup {<<>>})
@@ -174,6 +186,25 @@ Fam(c) ==
     \* every system call of a redirection fails in turn (fault injection)
     [] c = "qf" -> FaultFamily({"std", "int"}, {FALSE}, {"builtin", "exec", "empty", "notfound"} \cup DotKinds,
                                FaultLists, Faults)
+    \* the interactive shell: every single redirection on the commands whose errors
+    \* end a non-interactive shell, and on `exec` with operands
+    [] c = "qi1" -> Inter(Family({"std", "x35"}, BOOLEAN, {NoLimit},
+                                 {"special", "exec", "dot", "execnf", "execne", "execxf"}, FALSE,
+                                 Seq1(Full1) \cup {<<>>}))
+    \* ... the other command kinds and ways not to be executable
+    [] c = "qi2" -> Inter(Family({"std"}, {FALSE}, {NoLimit},
+                                 (AllKinds \ {"special", "exec", "dot"}) \cup {"execnx", "execdir"}, FALSE,
+                                 Seq1(Lim1) \cup {<<>>}))
+    \* ... pairs
+    [] c = "qi3" -> Inter(Family({"std", "x35"}, {FALSE}, {NoLimit}, {"execnf", "execxf"}, FALSE,
+                                 Seq2(Small, Small)))
+    \* ... under the limits where a saved copy does not fit
+    [] c = "qi4" -> Inter(Family({"std"}, {FALSE}, {10, 11, 12}, {"execnf", "exec"}, FALSE, Seq1(Lim1)))
+    \* ... every system call of a redirection fails in turn
+    [] c = "qfi" -> Inter(FaultFamily({"std"}, {FALSE}, {"execnf", "exec", "dot"}, FaultLists, Faults))
+    \* `exec` with operands in a non-interactive shell (it ends there)
+    [] c = "qx" -> Family({"std", "x35"}, BOOLEAN, {NoLimit}, {"execnf", "execdir"}, FALSE,
+                          Seq1(Full1) \cup {<<>>})
     \* a small family that exercises every action (run with -coverage)
     [] c = "cov" -> Family({"int"}, BOOLEAN, {NoLimit, 11}, AllKinds, TRUE,
                           Seq1(Alpha({1}, AllOps, {"a", "m", "d", "t"}, {1, 4, 10}, AllMisc))
@@ -190,12 +221,23 @@ Fam(c) ==
                                FaultLists \cup Seq2(Small, HereSmall) \cup Seq2(HereSmall, Small),
                                Faults \cup {[call |-> cl, n |-> 3, errno |-> "EIO"] : cl \in Calls})
     [] c = "t5" -> Family({"std"}, {FALSE}, {12}, {"builtin"}, FALSE, Seq3(Small, Small, Small))
+    [] c = "ti1" -> Inter(Family({"std", "x35", "full"}, BOOLEAN, {NoLimit}, AllKinds \cup ExecOpKinds, TRUE,
+                                 Seq1(Full1) \cup {<<>>}))
+    [] c = "ti2" -> Inter(Family({"std", "x35"}, {FALSE}, 0 .. 13, ExecOpKinds \cup {"exec"}, FALSE, Seq1(Lim1)))
+    [] c = "ti3" -> Inter(Family({"std", "x35"}, {FALSE}, {NoLimit}, ExecOpKinds \cup {"special", "exec"}, FALSE,
+                                 Seq2(Small, Small)))
+    [] c = "tfi" -> Inter(FaultFamily({"std", "x35"}, {FALSE}, ExecOpKinds \cup {"special", "exec", "dot", "cmddot"},
+                                      FaultLists,
+                                      Faults \cup {[call |-> cl, n |-> 3, errno |-> "EIO"] : cl \in Calls}))
+    [] c = "tx" -> Family(All4, BOOLEAN, {NoLimit}, ExecOpKinds, FALSE, Seq1(Full1) \cup {<<>>})
+    \* (coverage) exec with operands, interactive shell
+    [] c = "covi" -> Inter(Family({"std"}, {FALSE}, {NoLimit}, {"execnf", "execne", "special"}, FALSE, Seq1(Small)))
 
 \* the families of a configuration
 Parts(c) ==
-  CASE c = "quick"    -> {"q1a", "q1b", "resv", "q2", "q3", "q4", "qf"}
-    [] c = "thorough" -> {"t1a", "t1b", "resv", "t2", "t3", "t4", "t5", "tf"}
-    [] c = "cov"      -> {"cov", "negflt"}
+  CASE c = "quick"    -> {"q1a", "q1b", "resv", "q2", "q3", "q4", "qf", "qi1", "qi2", "qi3", "qi4", "qfi", "qx"}
+    [] c = "thorough" -> {"t1a", "t1b", "resv", "t2", "t3", "t4", "t5", "tf", "ti1", "ti2", "ti3", "tfi", "tx"}
+    [] c = "cov"      -> {"cov", "negflt", "covi"}
     \* the limit families again, for the model check with Sim = FALSE (no replay)
     [] c = "posix"    -> {"q2", "q4"}
     [] OTHER          -> {c}
@@ -203,7 +245,7 @@ Parts(c) ==
 
 -----------------------------------------------------------------------------
 Runs(kind)   == kind \in {"special", "builtin", "function", "group", "subshell", "dot", "cmddot"}
-IsSpecial(kind) == kind \in {"special", "exec", "dot"}
+IsSpecial(kind) == kind \in {"special", "exec", "dot"} \cup ExecOpKinds
 \* descriptors the probe inside the command tries to write one unit to
 MarkFds == <<0, 1, 2, 3, 5>>
 Tok(f)  == CASE f = 0 -> "c0" [] f = 1 -> "c1" [] f = 2 -> "c2" [] f = 3 -> "c3" [] f = 5 -> "c5"
@@ -422,6 +464,17 @@ RunExec ==
   /\ st' = 0 /\ pc' = "preserve"
   /\ UNCHANGED <<sc, k, i, saved, cur, spec, failed, ran, obsIn, wr, exited, dotfd>>
 
+\* `exec` with operands: the utility cannot be executed (127: not found, 126:
+\* found but not executable).  The redirections are retained exactly as without
+\* operands; a shell that is not interactive ends here.
+\* WRONG (Bug = "dropop"): retained only when there is no operand
+RunExecOp ==
+  /\ pc = "exec" /\ sc.kind \in ExecOpKinds
+  /\ st' = IF sc.kind \in {"execnf", "execnx"} THEN 127 ELSE 126
+  /\ exited' = ~sc.inter
+  /\ pc' = IF Bug = "dropop" THEN "undo" ELSE "preserve"
+  /\ UNCHANGED <<sc, k, i, saved, cur, spec, failed, ran, obsIn, wr, dotfd>>
+
 \* RedirGuard::undo_redirs, one saved descriptor per step, last first
 UndoOne ==
   /\ pc \in {"undo", "unwind"}
@@ -454,12 +507,12 @@ Finish ==
   /\ UNCHANGED <<sc, i, saved, cur, spec, failed, ran, obsIn, wr, st, exited, dotfd>>
 
 \* a redirection failed: status 2 (the dot built-in could not get its script:
-\* status 1); an error of a special built-in ends the shell
+\* status 1); an error of a special built-in ends the shell unless it is interactive
 FinishError ==
   /\ pc = "unwind" /\ saved = <<>>
   /\ k' = LeaveSubshell(k)
   /\ st' = IF failed > Len(sc.list) THEN 1 ELSE 2
-  /\ exited' = IsSpecial(sc.kind)
+  /\ exited' = (IsSpecial(sc.kind) /\ ~sc.inter)
   /\ pc' = "done"
   /\ UNCHANGED <<sc, i, saved, cur, spec, failed, ran, obsIn, wr, dotfd>>
 
@@ -468,7 +521,7 @@ Terminated == pc = "done" /\ UNCHANGED vars
 
 Next == \/ DotOpen \/ DotMove \/ DotClose \/ CheckReserved \/ Save \/ OpenFile \/ OpenExcl \/ OpenExisting \/ CopyFd
         \/ CloseSpec \/ HereTmp \/ HereWrite \/ HereSeek \/ Install \/ Record \/ ReleaseSave \/ LeakSave
-        \/ RunBody \/ RunNotFound \/ RunEmpty \/ RunExec \/ UndoOne \/ PreserveOne
+        \/ RunBody \/ RunNotFound \/ RunEmpty \/ RunExec \/ RunExecOp \/ UndoOne \/ PreserveOne
         \/ Finish \/ FinishError \/ Terminated
 
 Spec == Init /\ [][Next]_vars
@@ -476,7 +529,7 @@ Spec == Init /\ [][Next]_vars
 -----------------------------------------------------------------------------
 \* the behaviour as an observation record (same shape as the harness's)
 ModelRec ==
-  [kind |-> sc.kind, nc |-> sc.nc, lim |-> sc.lim, bst |-> sc.bst, list |-> sc.list,
+  [kind |-> sc.kind, inter |-> sc.inter, nc |-> sc.nc, lim |-> sc.lim, bst |-> sc.bst, list |-> sc.list,
    before |-> KTable(K0(sc)), files0 |-> KFiles(K0(sc), PathOrder),
    ran |-> ran, in |-> obsIn, wr |-> wr,
    after |-> KTable(k), files1 |-> KFiles(k, PathOrder),
